@@ -405,6 +405,50 @@ void run_case(Rng& rng)
         if (!close_abs<T>(r.variance(), res2.variance(), 8 * (acc.n[bsel] + 32), vscale)) viol("differential:bin-variance", J(info).u("bin", bsel).f("bin_variance", r.variance()).f("integral_variance", res2.variance()));
         if (res2.non_zero_calls() != r.finite_calls() && integ != 2) viol("differential:counts", J(info).u("bin", r.finite_calls()).u("integral", res2.non_zero_calls()));
     }
+    // accumulated over several short iterations (bins empty in some iterations, filled in others): every accumulated bin still reports
+    // the full number of calls, and - equal weighting being linear - its estimate is the average of the per-iteration bin estimates
+    if (P == 1 && rng.below(2))
+    {
+        std::size_t iters = rng.range(2, 4);
+        std::vector<hep::plain_result<T>> rs;
+        std::size_t total_calls = 0;
+        for (std::size_t i = 0; i < iters; ++i)
+        {
+            RunAcc dummy;
+            dummy.s.resize(nb); dummy.s2.resize(nb); dummy.sa.resize(nb); dummy.n.assign(nb, 0);
+            std::size_t n = rng.range(5, 80);
+            total_calls += n;
+            rs.push_back(run_any(integ, c, &dummy, dims, n, eseed + 1 + (std::uint32_t)i, bins, channels));
+        }
+        hep::plain_result<T> eq = hep::accumulate<hep::weighted_equally>(rs.cbegin(), rs.cend());
+        hep::plain_result<T> wv = hep::accumulate<hep::weighted_with_variance>(rs.cbegin(), rs.cend());
+        count("accumulated_runs");
+        bool some_empty_some_filled = false;
+        if (eq.distributions().size() != 1 || eq.distributions()[0].results().size() != nb || wv.distributions()[0].results().size() != nb)
+        { viol("accumulated:bin-count", info); return; }
+        for (std::size_t b = 0; b < nb; ++b)
+        {
+            LD mean = 0, mag = 0;
+            std::size_t empty = 0;
+            for (auto const& r : rs)
+            {
+                auto const& rb = r.distributions()[0].results()[b];
+                mean += (LD)rb.value();
+                mag += std::fabs((LD)rb.value());
+                if (rb.non_zero_calls() == 0) ++empty;
+            }
+            mean /= iters;
+            if (empty != 0 && empty != iters) some_empty_some_filled = true;
+            auto const& e = eq.distributions()[0].results()[b];
+            auto const& w = wv.distributions()[0].results()[b];
+            count("accumulated_bins_checked");
+            if (e.calls() != total_calls || w.calls() != total_calls)
+            { viol("accumulated:bin-calls!=sum-of-iteration-calls", J(info).u("bin", b).u("equal", e.calls()).u("variance_weighted", w.calls()).u("expected", total_calls)); return; }
+            if (!close_abs<T>(e.value(), mean, 8 * (iters + 2), mag / iters))
+            { viol("accumulated:equally-weighted-bin-not-average-of-iterations", J(info).u("bin", b).f("value", e.value()).f("expected", mean).u("iterations_with_empty_bin", empty)); return; }
+        }
+        if (some_empty_some_filled) count("accumulated_runs_with_a_bin_empty_in_some_iterations_only");
+    }
     count("adds_with_finite_value_but_overflowing_product", acc.overflowing);
     if (acc.outside > 0) nontrivial(hash_str(info.str()));
     sample(J(info).s("kind", "run"), 5);
